@@ -8,7 +8,7 @@
    invocations on arbitrary containers.  [clean c s]: the table [s] has no address under either handle of
    container [c] (primary "<network>.<containerID>", legacy "<namespace>.<pod>" / "<containerID>"). *)
 From Coq Require Import String List NArith Bool Arith.
-From Verif.C38 Require Import Model Spec Proofs.
+From Verif.C38 Require Import Model Spec Proofs Multi MultiSpec.
 Import ListNotations.
 
 (* Once the final delete succeeds no address remains allocated to that container's handles: for EVERY history of
@@ -119,6 +119,68 @@ Theorem c38_model_meets_spec : forall w o ks w' r cs,
   ok_step (w_store w) {| s_op := o; s_calls := ks; s_res := r; s_marker := w_marker w'; s_store := w_store w' |} = true.
 Proof. exact model_meets_spec. Qed.
 Print Assumptions c38_model_meets_spec.
+
+(* ---------------------------------------------------------------- below the abstract IPAM (Multi.v)
+   The IPAM library's handle bookkeeping, one datastore access at a time, every access may fail (request lost):
+   ReleaseByHandle / releaseByHandle / decrementHandle / decrementBlock, incrementHandle + block write + roll-back,
+   ReleaseIPs of one address.  [block_of] is ANY assignment of addresses to blocks (any pools / block sizes), so a
+   handle may span any number of blocks (dual stack: two).  [covers]: no handle object under-counts any block. *)
+
+(* The invariant holds in every state reachable from the empty datastore by any history of assignments, releases by
+   address, releases by handle and whole deletes, each cut short by faults at arbitrary accesses. *)
+Theorem c38_handle_never_undercounts : forall (block_of : addr -> N) l,
+  covers block_of (crun block_of (cempty) l).
+Proof. intros block_of l. apply crun_covers, covers_empty. Qed.
+Print Assumptions c38_handle_never_undercounts.
+
+(* Under the invariant, ReleaseByHandle with any fault pattern keeps the invariant, only removes addresses of that
+   handle, leaves NOTHING under the handle in any block when it reports success, and reports "not found" only when
+   the handle holds nothing (then it changes nothing). *)
+Theorem c38_release_by_handle_multiblock : forall (block_of : addr -> N) h st fs st' e fs',
+  covers block_of st ->
+  release_by_handle block_of true h st fs = (st', e, fs') ->
+  covers block_of st' /\
+  incl (tab st') (tab st) /\
+  (forall p, In p (tab st) -> ~ In p (tab st') -> snd p = h) /\
+  (e = ENone -> forall p, In p (tab st') -> snd p <> h) /\
+  (e = ENotFound -> st' = st /\ forall p, In p (tab st) -> snd p <> h).
+Proof. exact release_by_handle_spec. Qed.
+Print Assumptions c38_release_by_handle_multiblock.
+
+(* ... i.e. it realises an outcome the abstract IPAM of Model.v admits: the ReleaseByHandle part of the contract
+   [admissible] that the theorems above rely on is a theorem about the library's algorithm, not an assumption. *)
+Theorem c38_release_by_handle_meets_contract : forall (block_of : addr -> N) h st fs st' e fs',
+  covers block_of st ->
+  release_by_handle block_of true h st fs = (st', e, fs') ->
+  admissible (tab st) (CRelH h)
+    {| o_err := e; o_r4 := None; o_r6 := None; o_add := []; o_del := removed (tab st) (tab st') |} = true.
+Proof. exact release_by_handle_admissible. Qed.
+Print Assumptions c38_release_by_handle_meets_contract.
+
+(* After a successful DEL no address is allocated under the container's handles -- for handles spanning several
+   blocks, after ANY history (faults between the block writes of earlier adds and deletes included), with a fault
+   at any access of the DEL itself. *)
+Theorem c38_multiblock_del_clean : forall (block_of : addr -> N) l c fs st' r fs',
+  cdel block_of true c (crun block_of cempty l) fs = (st', r, fs') -> r = RDelOk -> clean c (tab st').
+Proof. exact multiblock_del_clean. Qed.
+Print Assumptions c38_multiblock_del_clean.
+
+(* The variant "delete the handle object as soon as ONE block's count reaches zero" (seeded change
+   decrement-handle-per-block-remaining) is refuted: dual-stack container, first DEL interrupted after the first
+   block, second DEL reports success while the other family's address is still allocated to the container. *)
+Theorem c38_delete_on_block_zero_refuted :
+  exists fs1 st1 r1 fs1' st2 r2 fs2',
+    covers fam_block wit_st /\
+    cdel fam_block false wit_c wit_st fs1 = (st1, r1, fs1') /\ r1 = RFail /\
+    cdel fam_block false wit_c st1 [] = (st2, r2, fs2') /\ r2 = RDelOk /\
+    exists a, In (a, primary wit_c) (tab st2).
+Proof. exact delete_on_block_zero_refuted. Qed.
+Print Assumptions c38_delete_on_block_zero_refuted.
+
+(* The boolean invariant check applied to every observed datastore state by the correspondence run decides [covers]. *)
+Theorem c38_covers_check_sound : forall bo st, covers_b bo st = true -> covers bo st.
+Proof. exact covers_b_sound. Qed.
+Print Assumptions c38_covers_check_sound.
 
 (* ---------------------------------------------------------------- non-vacuity: concrete runs *)
 Definition ex_c : container :=
